@@ -6,7 +6,7 @@ Subject priority: after load, every rule of a subject precedes every rule of the
 import itertools
 
 from ..core import Check, Oracle, build_oracle
-from .. import mgmt, c07_subject
+from .. import mgmt, c07_subject, c07_filtered
 from ..specs import truthy, fmatch
 
 PROP = "C07"
@@ -132,7 +132,9 @@ def main():
                 "one mutating call; distinct by (kind, mutating calls)")
     chk.rule += ("; subject-priority stratum: every hierarchy on 3 names (512 digraphs incl. self-loops and cycles) x 2 "
                  "arrival orders, plus random hierarchies on <=6 names (forests, DAGs, cycles; one or two domains) with "
-                 "1-3 edit/save/reload rounds on the same enforcer; non-trivial = non-empty hierarchy and policy")
+                 "1-3 edit/save/reload rounds on the same enforcer, role chains of 11-16 links; filtered-loading stratum: "
+                 "explicit- and subject-priority models on a FilteredFileAdapter, load_filtered_policy followed by "
+                 "load_increment_filtered_policy of further subsets; non-trivial = non-empty hierarchy and policy")
     chk.assumptions = ["priorities are decimal strings (non-numeric keys are outside the property)",
                        "subject-priority model: names and domains do not contain '::' (get_name_with_domain is then injective)",
                        "the model was loaded once (priority_index is only set by load_policy in this code base)"]
@@ -148,9 +150,11 @@ def main():
     if chk.tier == "thorough":
         run(chk, 2500, 3)
         c07_subject.run(chk, soracle, 6000)
+        c07_filtered.run(chk, soracle, 800)
     else:
         run(chk, 250, 2)
         c07_subject.run(chk, soracle, 500)
+        c07_filtered.run(chk, soracle, 80)
         if chk.broken() and not chk.spec_failures:
             run(chk, 1000, 3)
             c07_subject.run(chk, soracle, 3000, exhaustive=False)
@@ -161,6 +165,17 @@ def replay(chk, soracle):
     import json
     rec = json.load(open(chk.replay_file))
     case = rec.get("case", {})
+    if case.get("stratum") == "filtered-load":
+        c = case["case"]
+        bad = None
+        for o in c07_filtered.run_impl(c):
+            bad = bad or c07_filtered.spec_violation(c, o)
+        print("replay (filtered loads):", c["loads"], "->", bad)
+        if bad:
+            print(f"VIOLATION property={chk.prop} replay={chk.replay_file}")
+            raise SystemExit(1)
+        print("replay passes: the implementation satisfies the spec on this input")
+        raise SystemExit(0)
     if case.get("stratum") == "subject-priority":
         c07_subject.run(chk, soracle, 0, exhaustive=False, seed_cases=[case["case"]])
         return chk.finish()
